@@ -12,6 +12,19 @@ NOTE = ("Trusted base: Lean 4.33 kernel (axioms propext, Classical.choice, Quot.
         "alv.py. ")
 
 CLAIMS = {
+ "C09": dict(
+   text="Theorems AL.Properties.C09.no_ub_line (for EVERY byte string and option byte the per-line pipeline ends in code, skip or "
+        "EXIT_FAILURE, never where the C code would dereference a NULL strtok_r result), emitOne_failOnly (no division by a zero chunk "
+        "size, no third round of the fitting loop), the termination/fuel lemma items_eq_itemsL, and the bound of every fixed array the "
+        "parser copies text into: filtered_length (filter_str[100]), instruction_length ([15]), regstr_length / indexreg_length ([6]), "
+        "opdtype_length ([5]), nop_index, letter_index, table_slots_bound. T4: a clang-AST inventory of every subscript / dereference / "
+        "libc string call in the parser and encoder must equal the audited list (169 sites, each function mapped to its lemma). T2/T3: "
+        "120k (thorough 1.5M) malformed, garbage and boundary-length lines and API histories with guard regions under ASan+UBSan.",
+   note="PARTIAL by nature: uninitialised reads, signed-shift and other UB classes the model cannot express, libc internals and the "
+        "42-byte bound of the code[64] scratch array are observed by sanitizers (valgrind in the thorough tier), not proved; the site "
+        "inventory is textual (macro bodies appear by macro name).",
+   technique="Lean 4 proofs (totality, no-UB and array-bound lemmas by induction over the text) + clang-AST site inventory + sanitizer-backed differential stream",
+   design="8/C09"),
  "C10": dict(
    text="Theorems AL.Properties.C10.rejected_line_fails_call / rejected_line_in_program (a rejected line at ANY position fails the call "
         "in every mode and the instance is exactly what the preceding lines alone leave: nothing is emitted for it), reject_nonprintable "
